@@ -385,6 +385,11 @@ def _c16_stages0(tier):
         for nested in ((1, 2) if tier == "thorough" or t == 3 else (1,)):
             env = {"OMP_NUM_THREADS": str(t), "OMP_MAX_ACTIVE_LEVELS": str(nested), "OMP_NESTED": "true" if nested > 1 else "false"}
             st.append(S("host-gomp-asan", "func", ["--fam", OMP_FAM, "--mindim", "1100"], (36, 1500), (200, 2400), env=env, timeout=900))
+    # elimination only: which of process_rows 1..6 handles a block depends on the number of pivots found in it (ncols mod 6k for the
+    # last block), and the parallel row loops only split into chunks beyond 512 rows
+    for t in ([2, 4, 8] if tier == "thorough" else [2, 4]):
+        env = {"OMP_NUM_THREADS": str(t)}
+        st.append(S("host-gomp-asan", "func", ["--fam", "ech", "--mindim", "1100"], (150, 1500), (1200, 2200), env=env, timeout=900))
     # small triple: the recursion (Strassen inside the four mp sections) is deep here
     for t in ([2, 4, 7] if tier == "thorough" else [4]):
         st.append(S("small-gomp-asan", "func", ["--fam", OMP_FAM], (400, 700), (4000, 1300), env={"OMP_NUM_THREADS": str(t)}, timeout=900))
